@@ -55,6 +55,17 @@ def _variant(v, tag):
         return {}, None, int
     if v == 3:
         return {a: List[int], "b": Optional[str]}, Dict[str, int], None
+    # 6..10: rows that differ from variant 0 ({a: int} -> int, no yield) in exactly ONE column
+    if v == 6:
+        return {a: str}, int, None            # only arg_types differs
+    if v == 7:
+        return {a: int}, str, None            # only return_type differs
+    if v == 8:
+        return {a: int}, int, int             # only yield_type differs (NULL vs text)
+    if v == 9:
+        return {a: int}, None, None           # only return_type differs (text vs NULL)
+    if v == 10:
+        return {a: int}, int, str             # differs from 8 only in yield_type (text vs text)
     if v == 4:   # a wide row (spill campaigns)
         return {f"{a}_{i}": Dict[str, List[int]] for i in range(4)}, int, None
     raise ValueError(v)
@@ -254,6 +265,56 @@ def run_history(path, ops, nconn=3):
         for suffix in ("", "-journal"):
             if os.path.exists(path + suffix):
                 os.remove(path + suffix)
+
+
+# ------------------------------------------------------------------------------------------------
+# reference constants: the code shape the theorems were proved for.  Used only to evaluate the (shape-independent)
+# property predicate when a source extractor fails closed on a changed sqlite.py, so that the search for a
+# concrete failing history still runs; the proof obligation is reported broken by the driver in that case anyway.
+# ------------------------------------------------------------------------------------------------
+_ALL5 = '["module"; "qualname"; "arg_types"; "return_type"; "yield_type"]'
+REFERENCE_CONSTANTS_V = f"""From Coq Require Import List String NArith.
+Import ListNotations.
+Open Scope string_scope.
+Definition query_qualname_operator : string := "ExactPrefix".
+Definition query_select_columns : list string := {_ALL5}.
+Definition query_group_columns : list string := {_ALL5}.
+Definition config_query_limit : N := 2000%N.
+"""
+REFERENCE_STORE_CONSTANTS_V = f"""From Coq Require Import List String.
+Import ListNotations.
+Open Scope string_scope.
+Definition store_table_columns : list string := ["created_at"; "module"; "qualname"; "arg_types"; "return_type"; "yield_type"].
+Definition store_insert_values : list string := ["<now>"; "module"; "qualname"; "arg_types"; "return_type"; "yield_type"].
+Definition store_add_shape : string := "SerialiseThenOneTransaction".
+Definition store_serialise_shape : string := "SkipOnException".
+Definition store_qualname_operator : string := "ExactPrefix".
+Definition store_select_columns : list string := {_ALL5}.
+Definition store_group_columns : list string := {_ALL5}.
+Definition store_filter_shape : string := "AllRowsPositional".
+Definition store_list_modules_drops_falsy : bool := true.
+"""
+
+
+def build_reference_coq(workdir):
+    """private -Q root with Gen/{Constants,StoreConstants}.v = the reference shape, Model/Store.v, Check/StoreCases.v"""
+    import shutil
+    import subprocess
+    root = os.path.join(workdir, "coqref")
+    for d in ("Gen", "Model", "Check"):
+        os.makedirs(os.path.join(root, d), exist_ok=True)
+    with open(os.path.join(root, "Gen", "Constants.v"), "w") as f:
+        f.write(REFERENCE_CONSTANTS_V)
+    with open(os.path.join(root, "Gen", "StoreConstants.v"), "w") as f:
+        f.write(REFERENCE_STORE_CONSTANTS_V)
+    shutil.copy(os.path.join(common.COQ, "Model", "Store.v"), os.path.join(root, "Model", "Store.v"))
+    shutil.copy(os.path.join(common.COQ, "Check", "StoreCases.v"), os.path.join(root, "Check", "StoreCases.v"))
+    for rel in ("Gen/Constants.v", "Gen/StoreConstants.v", "Model/Store.v", "Check/StoreCases.v"):
+        p = subprocess.run(["timeout", "300", "coqc", "-q", "-Q", root, "MT", os.path.join(root, rel)],
+                           capture_output=True, text=True, cwd=root)
+        if p.returncode != 0:
+            raise RuntimeError(f"reference build failed on {rel}: " + (p.stdout + p.stderr)[-1500:])
+    return root
 
 
 # ------------------------------------------------------------------------------------------------
